@@ -188,6 +188,58 @@ Definition view_info (requires_pareto thr : bool) (budget count fails opens : Z)
   if negb requires_pareto then Some NotMM
   else let '(l, kw) := mm_phase thr budget count fails opens in info_from_phase l kw pick us halton.
 
+(* ---------------------------------------------------------------- the request: MetricsInfo and the two point containers
+   libsigopt/aux/adapter_info_containers.py : MetricsInfo.has_optimized_metric_thresholds
+       if len(self.optimized_metrics_index) == 0: return False
+       return any(self.user_specified_thresholds[i] is not None for i in self.optimized_metrics_index)
+   `user_specified_thresholds` has one entry per metric COLUMN (None = no threshold); `optimized_metrics_index` lists the
+   columns of the optimised metrics, in any order, among constraint and stored metrics.  `any` stops at the first hit;
+   an index beyond the list is Python's IndexError: None. *)
+Fixpoint any_threshold_at (thr : list (option Q)) (ix : list nat) : option bool :=
+  match ix with
+  | [] => Some false
+  | i :: r => match nth_error thr i with
+              | None => None
+              | Some (Some _) => Some true
+              | Some None => any_threshold_at thr r
+              end
+  end.
+Definition has_optimized_metric_thresholds (thr : list (option Q)) (optimized : list nat) : option bool :=
+  match optimized with [] => Some false | _ => any_threshold_at thr optimized end.
+
+(* what View.form_multimetric_info reads from a request:
+     metrics_info.requires_pareto_frontier_optimization, .observation_budget, .has_optimized_metric_thresholds,
+     len(points_sampled.points), numpy.sum(points_sampled.failures) (one flag per observation),
+     len(points_being_sampled.points) when the request has that key, else 0 *)
+Record request := mkRequest {
+  rq_pareto : bool;
+  rq_budget : Z;
+  rq_thresholds : list (option Q);
+  rq_optimized : list nat;
+  rq_failures : list bool;
+  rq_open : option nat }.
+Definition rq_count (r : request) : Z := Z.of_nat (length (rq_failures r)).
+Definition rq_failure_count (r : request) : Z := Z.of_nat (count_true (rq_failures r)).
+Definition rq_open_count (r : request) : Z := match rq_open r with Some k => Z.of_nat k | None => 0%Z end.
+
+Definition request_phase (r : request) : option (mlabel * option Q) :=
+  if negb (rq_pareto r) then Some (LNotMM, None) else
+  match has_optimized_metric_thresholds (rq_thresholds r) (rq_optimized r) with
+  | None => None
+  | Some flag => Some (mm_phase flag (rq_budget r) (rq_count r) (rq_failure_count r) (rq_open_count r))
+  end.
+Definition request_info (r : request) (pick : bool) (us halton : list Q) : option minfo :=
+  match request_phase r with
+  | None => None
+  | Some (l, kw) => info_from_phase l kw pick us halton
+  end.
+
+(* the documented flag: some OPTIMISED metric column carries a threshold *)
+Definition optimized_threshold_b (thr : list (option Q)) (optimized : list nat) : bool :=
+  existsb (fun i => match nth_error thr i with Some (Some _) => true | _ => false end) optimized.
+Definition columns_in_range (thr : list (option Q)) (optimized : list nat) : bool :=
+  forallb (fun i => Nat.ltb i (length thr)) optimized.
+
 (* ---------------------------------------------------------------- decidable specifications (run on the
    implementation's own outputs by the correspondence) *)
 Definition in_band (x : Q) : bool := Qle_bool BORDER_BUFFER x && Qle_bool x (1 - BORDER_BUFFER).
